@@ -736,6 +736,18 @@ def _snapshot(est):
     return {k: v for k, v in gp.items()}
 
 
+def _component_state(params):
+    """Fitted-state fingerprint of every estimator object among the (deep) parameter values."""
+    from sklearn.base import BaseEstimator as SkBase
+
+    out = {}
+    for k, v in params.items():
+        if isinstance(v, SkBase):
+            fitted = sorted(a for a in vars(v) if a.endswith("_") and not a.startswith("_"))
+            out[k] = (bool(getattr(v, "is_fitted", False)), tuple(fitted))
+    return out
+
+
 def _unchanged(before, after):
     out = []
     if set(before) != set(after):
@@ -840,6 +852,7 @@ def oracle_fitted_state(case, ctx):
     if discs:
         return discs
     before = _snapshot(est)
+    comp_before = _component_state(before)
     r = sut(fit, est)
     if isinstance(r, Raised):
         # valid data, valid configuration: on the unchanged tree this fit always succeeds
@@ -851,6 +864,14 @@ def oracle_fitted_state(case, ctx):
     ch = _unchanged(before, _snapshot(est))
     if ch:
         discs.append(D("fit_changes_parameter:%s" % type(est).__name__, "%s: %s" % (desc, ch[:3])))
+    else:
+        # ... and the component objects given to the constructor stay the unfitted templates
+        # they were: fitting works on clones
+        comp_after = _component_state(_snapshot(est))
+        touched = [k for k in comp_before if comp_after.get(k) != comp_before[k]]
+        if touched:
+            discs.append(D("fit_fits_constructor_component:%s" % type(est).__name__, "%s: %s" % (
+                desc, ["%s: %s -> %s" % (k, comp_before[k], comp_after.get(k)) for k in touched[:3]])))
     c = sut(clone, est)
     if isinstance(c, Raised):
         discs.append(D("clone_of_fitted_fails:%s" % type(est).__name__, repr(c)))
